@@ -4,6 +4,7 @@
    'w' net assigned to it), so by uniqueness (Pass/Stable.v) it is the valuation
    of the result on every remaining wire.  No range assumption is needed. *)
 From PyRTL Require Import Pass.Lower Pass.RewriteSound Pass.LowerPost Pass.Stable Pass.LowerTheorems.
+From PyRTL Require Import Pass.LowerHyps.
 From Coq Require Import ZifyBool.
 
 Lemma seq_okb_facts ns : seq_okb ns = true ->
@@ -368,7 +369,7 @@ Proof.
   { induction ns as [|m rest IH]; intros Hsub g g' Hg r0; [apply Hg|]. cbn [fold_left].
     apply IH; [intros; apply Hsub; right; assumption|].
     destruct (Hsub m (or_introl eq_refl)) as [Hm Hc]. destruct (Hnc m Hm Hc) as [Ha Hreg].
-    intro r1. unfold regnext_spec. destruct (nop m) eqn:Eo; try apply Hg.
+    intro r1. unfold regnext_spec. destruct (nop m) eqn:Eo; try apply Hg. rewrite <- Eo in Hc.
     cbn in Ha. assert (Hl : (0 < length (nargs m))%nat) by (destruct (nargs m) as [|? [|? ?]]; try discriminate; cbn; lia).
     rewrite (Hv (arg m 0)) by (apply (noncomb_args_kept m); [exact Hm|exact Hc|apply arg_in_nargs; exact Hl]).
     rewrite (width_kept (ndest m)) by (intro Hx; apply (Hreg eq_refl); apply rw_sub_cdests; exact Hx).
@@ -387,7 +388,7 @@ Proof.
   { induction ns as [|n rest IH]; intros Hsub g g' Hg m0 a0; [apply Hg|]. cbn [fold_left].
     apply IH; [intros; apply Hsub; right; assumption|].
     destruct (Hsub n (or_introl eq_refl)) as [Hn Hc]. destruct (Hnc n Hn Hc) as [Ha _].
-    intros m1 a1. unfold write_spec. destruct (nop n) eqn:Eo; try apply Hg.
+    intros m1 a1. unfold write_spec. destruct (nop n) eqn:Eo; try apply Hg. rewrite <- Eo in Hc.
     cbn in Ha. assert (Hl : length (nargs n) = 3%nat) by (apply Nat.eqb_eq; exact Ha).
     rewrite !(Hv (arg n _)) by (apply (noncomb_args_kept n); [exact Hn|exact Hc|apply arg_in_nargs; lia]).
     destruct (v' (arg n 2) =? 0); [apply Hg|].
@@ -427,3 +428,78 @@ Proof.
   split; [exact H1|]. intro Hx. apply mem_in_iff in Hx. rewrite Hx in H2. discriminate.
 Qed.
 End DcoPass.
+
+(* ---------- decidable hypotheses (evaluated by the harness on every design) ---------- *)
+Lemma outputs_unreadb_ok nl : outputs_unreadb nl = true -> outputs_unread nl.
+Proof.
+  unfold outputs_unreadb. intros H x n Hx Hk Hn Hin. rewrite forallb_forall in H. specialize (H x Hx).
+  rewrite Hk in H. cbn in H. rewrite forallb_forall in H. specialize (H n Hn).
+  apply mem_in_iff in Hin. rewrite Hin in H. discriminate.
+Qed.
+
+Lemma noncomb_okb_ok nl : noncomb_okb nl = true ->
+  forall n, In n (nets nl) -> is_comb (nop n) = false ->
+    arity_ok (nop n) (length (nargs n)) = true
+    /\ (nop n = OpReg -> ~ In (ndest n) (cdests (nets nl))).
+Proof.
+  unfold noncomb_okb. intros H n Hn Hc. rewrite forallb_forall in H. specialize (H n Hn). rewrite Hc in H.
+  cbn [orb] in H. apply andb_true_iff in H. destruct H as [H1 H2]. split; [exact H1|].
+  intros Eo Hin. rewrite Eo in H2. apply mem_in_iff in Hin. rewrite Hin in H2. discriminate.
+Qed.
+
+(* every wire the result still declares has the same value, cycle by cycle *)
+Definition preservedW (nl nl' : netlist) : Prop :=
+  forall dflt st inss,
+    Forall2 (same_on_wires nl') (fst (run nl dflt st inss)) (fst (run nl' dflt st inss))
+    /\ st_eq (snd (run nl dflt st inss)) (snd (run nl' dflt st inss)).
+
+Theorem dco_pass_preserves nl : dco_pass_okb nl = true -> preservedW nl (dco_with dco_skips nl).
+Proof.
+  unfold dco_pass_okb. intro H. rewrite !andb_true_iff in H. destruct H as [[[H1 H2] H3] H4].
+  intros dflt st inss.
+  destruct (dco_run_sound nl H1 H2 (outputs_unreadb_ok nl H3) (noncomb_okb_ok nl H4) dflt inss st st (st_eq_refl st))
+    as [A B].
+  split; [|exact B]. eapply Forall2_impl; [|exact A].
+  intros v v' Hv x Hx. apply Hv. apply (wires_kept nl x Hx).
+Qed.
+
+Lemma dco_with_wires_sub nl x : In x (wires (dco_with dco_skips nl)) -> In x (wires nl).
+Proof. unfold dco_with. cbn [wires]. intro H. apply filter_In in H. apply H. Qed.
+
+Lemma dco_iter_wires_sub : forall fuel nl x, In x (wires (dco_iter dco_skips fuel nl)) -> In x (wires nl).
+Proof.
+  induction fuel as [|f IH]; intros nl x H; cbn [dco_iter] in H; [exact H|].
+  destruct (dco_changes dco_skips nl); [|exact H]. apply dco_with_wires_sub. apply IH. exact H.
+Qed.
+
+Lemma preservedW_refl nl : preservedW nl nl.
+Proof.
+  intros dflt st inss. split; [|apply st_eq_refl].
+  induction (fst (run nl dflt st inss)); constructor; auto. intros x _. reflexivity.
+Qed.
+
+Lemma preservedW_trans nl1 nl2 nl3 :
+  (forall x, In x (wires nl3) -> In x (wires nl2)) ->
+  preservedW nl1 nl2 -> preservedW nl2 nl3 -> preservedW nl1 nl3.
+Proof.
+  intros Hsub H12 H23 dflt st inss. destruct (H12 dflt st inss) as [A1 A2]. destruct (H23 dflt st inss) as [B1 B2].
+  split.
+  - revert B1. generalize (fst (run nl3 dflt st inss)). induction A1 as [|a b l1 l2 Hab _ IH]; intros l3 B1;
+      inversion B1; subst; constructor; [|apply IH; assumption].
+    intros x Hx. rewrite (Hab x (Hsub x Hx)). auto.
+  - destruct A2 as [P1 P2]. destruct B2 as [Q1 Q2]. split; intros; [rewrite P1|rewrite P2]; auto.
+Qed.
+
+Theorem dco_iter_preserves : forall fuel nl,
+  dco_iter_okb fuel nl = true -> preservedW nl (dco_iter dco_skips fuel nl).
+Proof.
+  induction fuel as [|f IH]; intros nl H; cbn [dco_iter dco_iter_okb] in *; [apply preservedW_refl|].
+  destruct (dco_changes dco_skips nl); [|apply preservedW_refl].
+  apply andb_true_iff in H. destruct H as [H1 H2].
+  eapply preservedW_trans; [|apply dco_pass_preserves; exact H1|apply IH; exact H2].
+  apply dco_iter_wires_sub.
+Qed.
+
+Theorem direct_connect_outputs_preserves nl :
+  dco_okb nl = true -> preservedW nl (direct_connect_outputs nl).
+Proof. apply dco_iter_preserves. Qed.
